@@ -51,6 +51,15 @@ Theorem C05_raw_roundtrip : forall reg lim ids p m f rest,
 Proof. exact raw_roundtrip_lemma. Qed.
 Print Assumptions C05_raw_roundtrip.
 
+(* on ANY byte stream, hostile ones included: a frame that unpacks has consumed exactly the
+   number of bytes it reports as its size and has left the rest of the stream untouched, so
+   whatever precedes or follows a frame cannot shift the decoder (frame sync) *)
+Theorem C05_raw_consumes_reported_size : forall reg lim s m ids size rest,
+  raw_unpack reg lim s = Ok (m, ids, size, rest) ->
+  exists frame, s = frame ++ rest /\ blen frame = size.
+Proof. exact raw_unpack_consumes_its_size. Qed.
+Print Assumptions C05_raw_consumes_reported_size.
+
 (* any number of back-to-back frames decode to the same frame sequence, and the size
    reported for the i-th message is the length of the i-th frame alone *)
 Theorem C05_raw_stream : forall reg lim,
